@@ -550,6 +550,7 @@ class TopologicalNode(object):
             return tuple(rval)
 
         lower = iter(self.lower_nodes[-1])
+        served = set()
         for d in range(self.pardim):
             # Number of faces in one "slice"
             nperslice = ncells // shape[d]
@@ -575,6 +576,12 @@ class TopologicalNode(object):
                 if bdnode.owner is not self:
                     continue
 
+                # An interface between this patch and itself occurs twice among the boundaries:
+                # its faces are returned from the first occurrence only
+                if id(bdnode) in served:
+                    continue
+                served.add(id(bdnode))
+
                 faces = np.empty((nperslice,), dtype=face_t)
                 faces['nodes'][:,0] = self.cp_numbers[mkindex(d, bdindex, np.s_[:-1], np.s_[:-1])].flatten()
                 faces['nodes'][:,1] = self.cp_numbers[mkindex(d, bdindex, np.s_[1:], np.s_[:-1])].flatten()
@@ -595,10 +602,13 @@ class TopologicalNode(object):
                 if bdnode.nhigher == 1:
                     faces['neighbor'] = -1
                 else:
-                    neighbor = next(c for c in bdnode.higher_nodes[3] if c is not self)
+                    neighbor = next((c for c in bdnode.higher_nodes[3] if c is not self), self)
 
                     # Find out which face the interface is as numbered from the neighbor's perspective
-                    nb_index = neighbor.lower_nodes[2].index(bdnode)
+                    # (for an interface with this patch itself: the other occurrence)
+                    my_index = 2 * d + (0 if bdindex == 0 else 1)
+                    nb_index = next(i for i, n in enumerate(neighbor.lower_nodes[2])
+                                    if n is bdnode and (neighbor is not self or i != my_index))
 
                     # Get the spline object on that interface as oriented from the neighbor's perspective
                     nb_sec = section_from_index(3, 2, nb_index)
